@@ -20,6 +20,8 @@
 (*   proof inst s t p               Prove(s): targets t, proof hashes p    *)
 (*   upd   d k prev td ndel nadd    UpdateData of Stump.Update for block   *)
 (*                                   (d, k) - logged BEFORE the mod event  *)
+(*   accept api hs tg               a verifier accepted (a mutation of) an *)
+(*                                   honest proof for claims hs at tg      *)
 (*   hold  s t p lossy              what the light client holds: leaves s  *)
 (*                                   with targets t and proof hashes p     *)
 (*   pop   inst op s                a partial forest was asked to remember *)
@@ -98,8 +100,13 @@ StoredOK(e) ==
       /\ StoredLower(n, nds, C) \subseteq st
       /\ st \subseteq StoredUpper(n, nds, C)
 
+\* C03: a verifier accepted the claims "hash hs[i] sits at position tg[i]"
+AcceptOK(e) ==
+  ClaimsTrue(n, live, e.hs, [i \in 1..Len(e.tg) |-> Pos(e.tg[i][1], e.tg[i][2])])
+
 Check(e) ==
   CASE e.ev = "roots" -> RootsOK(e)
+    [] e.ev = "accept" -> AcceptOK(e)
     [] e.ev = "stored" -> StoredOK(e)
     [] e.ev = "pop"   -> SetOf(e.s) \subseteq (0..(n - 1))
     [] e.ev = "hold"  -> HoldOK(e)
